@@ -864,6 +864,9 @@ def double_to_int(f):
 
 
 def pytype_of(x):
+    vt = getattr(x, "_vt_pytype", None)
+    if vt is not None:
+        return vt
     t = getattr(x, "pytype", None)
     if t is not None and isinstance(x, (SymInt, SymFloat, SymComplex, SymOpaque)):
         return t
